@@ -46,7 +46,7 @@ func die(format string, a ...interface{}) {
 var seams = map[string]map[string]string{
 	"sync": {"Mutex": "Mutex", "RWMutex": "RWMutex", "Pool": "Pool", "WaitGroup": "WaitGroup", "Cond": "!", "NewCond": "!", "Map": "!"},
 	"time": {"Now": "Now", "Since": "Since", "Until": "Until", "Sleep": "Sleep",
-		"After": "!", "AfterFunc": "!", "NewTimer": "!", "NewTicker": "!", "Tick": "!"},
+		"After": "After", "AfterFunc": "!", "NewTimer": "!", "NewTicker": "!", "Tick": "!"},
 	"os":                           {"ReadFile": "ReadFile"},
 	"io/ioutil":                    {"ReadFile": "ReadFile"},
 	"github.com/fsnotify/fsnotify": {"NewWatcher": "NewWatcher", "NewBufferedWatcher": "NewBufferedWatcher", "Watcher": "Watcher"},
@@ -68,6 +68,12 @@ type rewriter struct {
 	tmp    int
 	needRT bool
 	errs   []string
+	loops  []*loopCtx // enclosing for/range statements (innermost last); reset at function literals
+}
+
+type loopCtx struct {
+	label     string
+	needLabel bool
 }
 
 func (r *rewriter) errorf(pos token.Pos, format string, a ...interface{}) {
@@ -140,18 +146,11 @@ func (r *rewriter) stmt(st ast.Stmt) (pre []ast.Stmt, out ast.Stmt) {
 			_, s.Else = r.stmt(s.Else)
 		}
 	case *ast.ForStmt:
-		if s.Init != nil {
-			_, s.Init = r.stmt(s.Init)
-		}
-		if s.Cond != nil {
-			s.Cond = r.expr(s.Cond)
-		}
-		if s.Post != nil {
-			_, s.Post = r.stmt(s.Post)
-		}
-		r.block(s.Body)
+		return nil, r.forStmt(s, "")
 	case *ast.RangeStmt:
-		return r.rangeStmt(s, nil)
+		lc := r.pushLoop("")
+		pre, out := r.rangeStmt(s, nil)
+		return pre, r.popLoop(lc, out)
 	case *ast.SwitchStmt:
 		if s.Init != nil {
 			_, s.Init = r.stmt(s.Init)
@@ -167,10 +166,17 @@ func (r *rewriter) stmt(st ast.Stmt) (pre []ast.Stmt, out ast.Stmt) {
 		_, s.Assign = r.stmt(s.Assign)
 		r.caseClauses(s.Body)
 	case *ast.SelectStmt:
-		r.errorf(s.Pos(), "select statement in instrumented code: not lowered by the simulator")
+		return nil, r.selectStmt(s)
 	case *ast.LabeledStmt:
 		if rs, ok := s.Stmt.(*ast.RangeStmt); ok {
-			return r.rangeStmt(rs, s)
+			lc := r.pushLoop(s.Label.Name)
+			pre, out := r.rangeStmt(rs, s)
+			r.popLoop(lc, nil)
+			return pre, out
+		}
+		if fs, ok := s.Stmt.(*ast.ForStmt); ok {
+			s.Stmt = r.forStmt(fs, s.Label.Name)
+			return nil, s
 		}
 		var p []ast.Stmt
 		p, s.Stmt = r.stmt(s.Stmt)
@@ -389,7 +395,193 @@ func (r *rewriter) goStmt(s *ast.GoStmt) ast.Stmt {
 
 func (r *rewriter) funcLit(fl *ast.FuncLit) {
 	fl.Type = r.expr(fl.Type).(*ast.FuncType)
+	saved := r.loops
+	r.loops = nil
 	r.block(fl.Body)
+	r.loops = saved
+}
+
+func (r *rewriter) pushLoop(label string) *loopCtx {
+	lc := &loopCtx{label: label}
+	r.loops = append(r.loops, lc)
+	return lc
+}
+
+// popLoop ends a loop context; when a lowered select inside the loop needed to name it, the loop gets a label.
+func (r *rewriter) popLoop(lc *loopCtx, loop ast.Stmt) ast.Stmt {
+	r.loops = r.loops[:len(r.loops)-1]
+	if loop != nil && lc.needLabel {
+		if _, already := loop.(*ast.LabeledStmt); !already {
+			return &ast.LabeledStmt{Label: ast.NewIdent(lc.label), Stmt: loop}
+		}
+	}
+	return loop
+}
+
+func (r *rewriter) forStmt(s *ast.ForStmt, label string) ast.Stmt {
+	lc := r.pushLoop(label)
+	if s.Init != nil {
+		_, s.Init = r.stmt(s.Init)
+	}
+	if s.Cond != nil {
+		s.Cond = r.expr(s.Cond)
+	}
+	if s.Post != nil {
+		_, s.Post = r.stmt(s.Post)
+	}
+	r.block(s.Body)
+	if label != "" {
+		r.popLoop(lc, nil)
+		return s
+	}
+	return r.popLoop(lc, s)
+}
+
+// relabelContinues rewrites unlabeled `continue` statements that belong to the loop enclosing a select (those not
+// nested in an inner loop or function literal) into `continue <label>`: the lowered select is itself a for loop.
+func (r *rewriter) relabelContinues(list []ast.Stmt) {
+	var walk func(n ast.Node) bool
+	walk = func(n ast.Node) bool {
+		switch x := n.(type) {
+		case *ast.ForStmt, *ast.RangeStmt, *ast.FuncLit:
+			return false
+		case *ast.BranchStmt:
+			if x.Tok == token.CONTINUE && x.Label == nil {
+				if len(r.loops) == 0 {
+					r.errorf(x.Pos(), "continue inside select outside any loop")
+					return false
+				}
+				lc := r.loops[len(r.loops)-1]
+				if lc.label == "" {
+					r.tmp++
+					lc.label = fmt.Sprintf("zzloop%d", r.tmp)
+					lc.needLabel = true
+				}
+				x.Label = ast.NewIdent(lc.label)
+			}
+		}
+		return true
+	}
+	for _, st := range list {
+		ast.Inspect(st, walk)
+	}
+}
+
+// selectStmt lowers select into a polling loop over simrt.TryRecv/TrySend (channel operands and sent values are
+// evaluated once, as Go does; the order in which ready cases are tried is drawn from the tape):
+//
+//	{ c0 := ch0; c1, v1 := ch1, val; zzsel: for { for _, i := range simrt.SelectOrder(n) { switch i {
+//	    case 0: if x, ok, got := simrt.TryRecv(c0); got { ...; break zzsel }
+//	    case 1: if simrt.TrySend(c1, v1) { ...; break zzsel } } }
+//	    <default body; break zzsel>  |  simrt.SelectPark() } }
+func (r *rewriter) selectStmt(s *ast.SelectStmt) ast.Stmt {
+	r.tmp++
+	selLabel := fmt.Sprintf("zzsel%d", r.tmp)
+	var pre []ast.Stmt
+	var cases []ast.Stmt
+	var defaultBody []ast.Stmt
+	hasDefault := false
+	idx := 0
+	brk := func() ast.Stmt { return &ast.BranchStmt{Tok: token.BREAK, Label: ast.NewIdent(selLabel)} }
+	for _, c := range s.Body.List {
+		cc := c.(*ast.CommClause)
+		r.relabelContinues(cc.Body)
+		body := r.stmts(cc.Body)
+		// an unlabeled break in a case body leaves the select: in the lowered form it must leave the polling loop
+		relabelBreaks(body, selLabel)
+		if cc.Comm == nil {
+			hasDefault = true
+			defaultBody = body
+			continue
+		}
+		var cond ast.Stmt
+		var head []ast.Stmt
+		switch cm := cc.Comm.(type) {
+		case *ast.SendStmt:
+			ch, v := r.fresh("c"), r.fresh("v")
+			pre = append(pre, &ast.AssignStmt{Lhs: []ast.Expr{ch, v}, Tok: token.DEFINE, Rhs: []ast.Expr{r.expr(cm.Chan), r.expr(cm.Value)}})
+			cond = &ast.IfStmt{Cond: r.call("TrySend", ch, v), Body: &ast.BlockStmt{List: append(body, brk())}}
+		case *ast.ExprStmt:
+			u, ok := cm.X.(*ast.UnaryExpr)
+			if !ok || u.Op != token.ARROW {
+				r.errorf(cm.Pos(), "unsupported select case")
+				continue
+			}
+			ch := r.fresh("c")
+			pre = append(pre, &ast.AssignStmt{Lhs: []ast.Expr{ch}, Tok: token.DEFINE, Rhs: []ast.Expr{r.expr(u.X)}})
+			got := r.fresh("got")
+			cond = &ast.IfStmt{
+				Init: &ast.AssignStmt{Lhs: []ast.Expr{ast.NewIdent("_"), ast.NewIdent("_"), got}, Tok: token.DEFINE, Rhs: []ast.Expr{r.call("TryRecv", ch)}},
+				Cond: got, Body: &ast.BlockStmt{List: append(body, brk())}}
+		case *ast.AssignStmt:
+			u, ok := cm.Rhs[0].(*ast.UnaryExpr)
+			if !ok || u.Op != token.ARROW || len(cm.Rhs) != 1 {
+				r.errorf(cm.Pos(), "unsupported select case")
+				continue
+			}
+			ch := r.fresh("c")
+			pre = append(pre, &ast.AssignStmt{Lhs: []ast.Expr{ch}, Tok: token.DEFINE, Rhs: []ast.Expr{r.expr(u.X)}})
+			val, okv, got := r.fresh("rv"), r.fresh("rok"), r.fresh("got")
+			lhs := []ast.Expr{r.expr(cm.Lhs[0])}
+			rhs := []ast.Expr{val}
+			if len(cm.Lhs) == 2 {
+				lhs = append(lhs, r.expr(cm.Lhs[1]))
+				rhs = append(rhs, okv)
+			}
+			head = append(head, &ast.AssignStmt{Lhs: lhs, Tok: cm.Tok, Rhs: rhs})
+			if cm.Tok == token.DEFINE {
+				for _, l := range cm.Lhs {
+					if id, ok := l.(*ast.Ident); ok && id.Name != "_" {
+						head = append(head, &ast.AssignStmt{Lhs: []ast.Expr{ast.NewIdent("_")}, Tok: token.ASSIGN, Rhs: []ast.Expr{ast.NewIdent(id.Name)}})
+					}
+				}
+			}
+			head = append(head, &ast.AssignStmt{Lhs: []ast.Expr{ast.NewIdent("_")}, Tok: token.ASSIGN, Rhs: []ast.Expr{okv}})
+			cond = &ast.IfStmt{
+				Init: &ast.AssignStmt{Lhs: []ast.Expr{val, okv, got}, Tok: token.DEFINE, Rhs: []ast.Expr{r.call("TryRecv", ch)}},
+				Cond: got, Body: &ast.BlockStmt{List: append(append(head, body...), brk())}}
+		default:
+			r.errorf(cc.Pos(), "unsupported select case")
+			continue
+		}
+		cases = append(cases, &ast.CaseClause{List: []ast.Expr{&ast.BasicLit{Kind: token.INT, Value: strconv.Itoa(idx)}}, Body: []ast.Stmt{cond}})
+		idx++
+	}
+	iv := r.fresh("i")
+	poll := &ast.RangeStmt{Key: ast.NewIdent("_"), Value: iv, Tok: token.DEFINE, X: r.call("SelectOrder", &ast.BasicLit{Kind: token.INT, Value: strconv.Itoa(idx)}),
+		Body: &ast.BlockStmt{List: []ast.Stmt{&ast.SwitchStmt{Tag: iv, Body: &ast.BlockStmt{List: cases}}}}}
+	var loopBody []ast.Stmt
+	if idx > 0 {
+		loopBody = append(loopBody, poll)
+	}
+	if hasDefault {
+		loopBody = append(loopBody, defaultBody...)
+		loopBody = append(loopBody, brk())
+	} else {
+		loopBody = append(loopBody, &ast.ExprStmt{X: r.call("SelectPark")})
+	}
+	loop := &ast.LabeledStmt{Label: ast.NewIdent(selLabel), Stmt: &ast.ForStmt{Body: &ast.BlockStmt{List: loopBody}}}
+	return &ast.BlockStmt{List: append(pre, loop)}
+}
+
+// relabelBreaks turns unlabeled `break` statements that would leave the select (not nested in a loop, switch,
+// inner select or function literal) into `break <label>`.
+func relabelBreaks(list []ast.Stmt, label string) {
+	var walk func(n ast.Node) bool
+	walk = func(n ast.Node) bool {
+		switch x := n.(type) {
+		case *ast.ForStmt, *ast.RangeStmt, *ast.FuncLit, *ast.SwitchStmt, *ast.TypeSwitchStmt, *ast.SelectStmt:
+			return false
+		case *ast.BranchStmt:
+			if x.Tok == token.BREAK && x.Label == nil {
+				x.Label = ast.NewIdent(label)
+			}
+		}
+		return true
+	}
+	for _, st := range list {
+		ast.Inspect(st, walk)
+	}
 }
 
 // expr rewrites seam selectors, channel receives, close(), and instruments function literals.
